@@ -3519,6 +3519,9 @@ class Norm:
                 d = args[0][1]
                 okv = ("proj", recv, "v1::Ok", "0")
                 X = _apply(args[0], okv)
+                if id(e) in self._ret_blocks and sum(1 for y in subterms(X) if y == okv) == 1:
+                    # as the result of the fn / closure (same error type by construction):  r.map(|v| X)  ==  Ok(X[r?])
+                    return _mk_ok(rewrite(X, lambda n: ("try", recv) if n == okv else None))
                 return self._canon_match(recv, [("v1::Ok($)", None, ("call", "Ok", [X])), ("v1::Err($)", None, ("call", "Err", [("proj", recv, "v1::Err", "0")]))])
             if name in ("Iterator::map", "Iterator::filter", "Iterator::filter_map") and len(args) == 1 and args[0][0] == "closure" and args[0][2] == 1 \
                     and recv[0] == "call" and recv[1] in ("Iterator::map", "Iterator::filter") and len(recv[2]) == 2 and recv[2][1][0] == "closure" \
@@ -4295,6 +4298,8 @@ def _mark_tail(node, acc):
     elif k == "Match" and n.get("src") == "Normal":
         for a in n["arms"]:
             _mark_tail(a["body"], acc)
+    else:
+        acc.add(id(n))          # an expression whose value is the value of the fn / closure
 
 
 def _may_diverge(node):
